@@ -1,7 +1,7 @@
 """Shared pass for C01 (timing), C02 (listing) and C04 (span): program enumeration vs the schedule model."""
 from mc import world
 from mc.engine import Family, Res
-from mc.interp import build, count_events
+from mc.interp import build, count_events, make_op
 from mc.ref.schedule import Judge, canonical_state, structure_sig
 from mc.ref.unroll import model_build, model_rows, impl_rows, Sched
 from mc.spaces import FlatSpace, NestedSpace1, NestedSpace2, SparseSpace, N1_BODIES, N1_BODIES_EXTRA
@@ -62,11 +62,13 @@ class SchedFamily(Family):
                     else:
                         judge.check_listing(bv, vops, bv.circ.operations, label)
                     if kw.get('via_structure'):
-                        for i, sb in enumerate(bv.subs):
+                        # "exactly the operations that were added": operations given to the source block afterwards were never added here
+                        for sb in bv.subs:
                             if sb is not None:
-                                given = sb.circ.circuit_structure
-                                if bv.ent[i] is given or set(map(id, bv.ent[i].decomposed_operations())) & set(map(id, given.decomposed_operations())):
-                                    res.fail('C02-block-not-copied', 'program %r: a block handed to add as a structure is listed by reference (adding to the source afterwards would change the circuit)' % (prog,))
+                                sb.circ.circuit_structure.add(make_op('R', 0, None, sb.circ))
+                        world.clear_memo()
+                        if structure_sig(bv.circ.operations, bv.circ.composite_operations) != ref_sig:
+                            res.fail('C02-listing-has-unadded', 'program %r (%s): after the source blocks received one more operation each, the circuit lists %d operations instead of the %d that were added to it' % (prog, label, len(bv.circ.operations), len(ops)))
                     world.clear_memo()
             ok = True
             if 'C01' in self.want:
